@@ -89,7 +89,8 @@ def run(ctx):
             for _ in range(2):
                 pp.create_gen(net, gb, 0.8, vm_pu=1.03, min_q_mvar=-0.1, max_q_mvar=rng.choice([0.1, 0.2]))
         angles = rng.random() < 0.7
-        base = dict(calculate_voltage_angles=angles, voltage_depend_loads=False, enforce_q_lims=gens and (twin_gens or rng.random() < 0.4))
+        base = dict(calculate_voltage_angles=angles, voltage_depend_loads=False, enforce_q_lims=gens and (twin_gens or rng.random() < 0.4),
+                    tolerance_mva=1e-10)      # results are compared to 1e-6 / 1e-5: the solvers' own stopping error must stay below that
         case = {"net_json": pp.to_json(net), "base_options": base}
         try:
             with core.quiet():
@@ -98,8 +99,11 @@ def run(ctx):
             ctx.hist("default", type(e).__name__)
             continue
         par = has_parallel_branches(net)
+        if float(np.nanmin(net.res_bus.vm_pu.values)) < 0.5:
+            ctx.hist("default", "collapsed-solution-skipped")       # low-voltage 'solutions' are not unique: no reference to compare with
+            continue
         alts = [("iwamoto_nr", dict(algorithm="iwamoto_nr"), 1e-6), ("bfsw", dict(algorithm="bfsw", max_iteration=300), 1e-5),
-                ("gs", dict(algorithm="gs", max_iteration=3000), 1e-5), ("fdbx", dict(algorithm="fdbx", max_iteration=200), 1e-5),
+                ("gs", dict(algorithm="gs", max_iteration=3000, tolerance_mva=1e-8), 1e-5), ("fdbx", dict(algorithm="fdbx", max_iteration=200), 1e-5),
                 ("fdxb", dict(algorithm="fdxb", max_iteration=200), 1e-5), ("numba_off", dict(numba=False), 1e-6),
                 ("init_flat", dict(init="flat"), 1e-6), ("init_dc", dict(init="dc"), 1e-6), ("init_results", dict(init="results"), 1e-6)]
         if ls:
@@ -125,6 +129,9 @@ def run(ctx):
                 ctx.hist("alternative", f"{name}:NotImplementedError")
                 continue
             except Exception as e:       # noqa
+                if isinstance(e, ValueError) and "cannot enforce Q limits for slack buses" in str(e):
+                    ctx.hist("alternative", f"{name}:refused-q-limits-with-several-slacks")       # a documented refusal, not a result
+                    continue
                 key = "bfsw-parallel-branches" if (name == "bfsw" and par and type(e).__name__ == "LinAlgError") else f"internal-error:{name}"
                 if name == "bfsw" and len(net.gen) and net.gen.bus[net.gen.in_service].duplicated().any() and "broadcast" in str(e):
                     key = "bfsw-two-gens-one-bus"
